@@ -102,6 +102,7 @@ class guard:
         self.hang_key = hang_key or key
 
     def __enter__(self):
+        core.cur().fallback = (self.replay, self.key, self.what)      # see Explorer._concolic_fallback
         return self
 
     def __exit__(self, et, e, tb):
